@@ -95,6 +95,7 @@ fn main() {
             "conn05" | "conn07" | "conn09" | "conn10" => s_conn::run(&a[3]),
             "clientread" => s_conn::run_clientread(&a[3]),
             "prefix" | "prefixsafe" => s_parse::run_prefix(&a[3]),
+            "swar" => s_parse::run_swar(&a[3]),
             "grammar" => s_parse::run_grammar(&a[3]),
             s => panic!("unknown stream {s}"),
         };
@@ -135,6 +136,7 @@ fn main() {
         "clientread" => s_conn::gen_clientread(&ctx),
         "prefix" => s_parse::gen_prefix(&ctx),
         "prefixsafe" => s_parse::gen_prefixsafe(&ctx),
+        "swar" => s_parse::gen_swar(&ctx),
         "grammar" => s_parse::gen_grammar(&ctx),
         s => panic!("unknown stream {s}"),
     }
